@@ -525,7 +525,8 @@ class TensorDictBase(MutableMapping):
             return key in self.keys()
         if isinstance(key, tuple):
             key = unravel_key(key)
-            if not key:
+            # an empty tuple is not a key; the empty string is
+            if isinstance(key, tuple) and not key:
                 raise RuntimeError(
                     "key must be a NestedKey (a str or a possibly tuple of str)."
                 )
